@@ -1,5 +1,5 @@
 (* C02 -- lemmas.  Part A: the pointer array (swap, relink, shuffle, reverse).  Part B: filters.  Part C: runAllTests.
-   Part D: the runner and run_meets_spec. *)
+   Part D: one repetition of a run meets the oracle (the sessions and run_meets_spec are in C02_Sessions.v). *)
 From Coq Require Import NArith Arith Bool List Lia Permutation FinFun.
 From CppUVerif Require Import lib.Str C13_Model C13_Proofs C02_Model.
 Import ListNotations.
@@ -481,14 +481,14 @@ Ltac split_andb H :=
 
 Section Runner.
 Variable s : scenario.
-Hypothesis V : valid s = true.
+Hypothesis V : valid1 s = true.
 Let ts := s_tests s.
 Let n := length (s_tests s).
 
 Lemma valid_parts : natlist_eqb (map t_id ts) (seq 0 n) = true /\ forallb test_ok ts = true
   /\ forallb filter_ok (s_gf s) = true /\ forallb filter_ok (s_nf s) = true.
 Proof.
-  pose proof V as W. unfold valid in W.
+  pose proof V as W. unfold valid1 in W.
   apply andb_true_iff in W. destruct W as [W _]. apply andb_true_iff in W. destruct W as [W _].
   apply andb_true_iff in W. destruct W as [W D]. apply andb_true_iff in W. destruct W as [W C].
   apply andb_true_iff in W. destruct W as [A B]. repeat split; assumption.
@@ -578,29 +578,6 @@ Proof.
   - apply N.eqb_eq. exact Q4.
 Qed.
 
-Lemma repeat_loop_ok : forall m reg,
-  Permutation reg ts -> (s_shuffle s = false -> map t_id reg = expected_order) ->
-  exists reps, repeat_loop s m reg = Some reps /\ length reps = m /\ forallb (rep_ok s) reps = true.
-Proof.
-  induction m as [|m IH]; intros reg P O; cbn [repeat_loop].
-  - exists []. repeat split.
-  - destruct (s_shuffle s) eqn:Sh.
-    + unfold shuffle_tests. rewrite pointer_array_id.
-      destruct (shuffle_ok (s_seed s) (s_rands s) reg) as [l [seeds [drawn [E [Pl _]]]]]. rewrite E.
-      assert (P' : Permutation l ts) by (eapply Permutation_trans; eassumption).
-      assert (O' : s_shuffle s = false -> map t_id l = expected_order) by (rewrite Sh; discriminate).
-      assert (O2 : true = false -> map t_id l = expected_order) by discriminate.
-      pose proof (rep_ok_of_perm l seeds drawn P' O') as R.
-      destruct (run_all_tests (s_gf s) (s_nf s) (s_ri s) l) as [w k].
-      destruct (IH l P' O2) as [reps [E' [L' F']]]. rewrite E'.
-      eexists. split; [reflexivity|]. split; [cbn; lia|]. cbn [forallb]. rewrite R, F'. reflexivity.
-    + assert (O1 : s_shuffle s = false -> map t_id reg = expected_order) by (intros _; apply O; reflexivity).
-      pose proof (rep_ok_of_perm reg [] [] P O1) as R.
-      destruct (run_all_tests (s_gf s) (s_nf s) (s_ri s) reg) as [w k].
-      destruct (IH reg P O) as [reps [E' [L' F']]]. rewrite E'.
-      eexists. split; [reflexivity|]. split; [cbn; lia|]. cbn [forallb]. rewrite R, F'. reflexivity.
-Qed.
-
 Lemma rep_ok_once r : rep_ok s r = true -> forall t, In t ts -> occurrences (EBody (t_id t)) (r_word r) = b2n (executes s t).
 Proof.
   unfold rep_ok. intros R t Ht.
@@ -608,40 +585,7 @@ Proof.
   rewrite forallb_forall in R. specialize (R t Ht). apply andb_true_iff in R. destruct R as [_ B]. apply N.eqb_eq in B. exact B.
 Qed.
 
-Lemma totals_ok reps : forallb (rep_ok s) reps = true ->
-  totals n reps = map (fun t => N.of_nat (length reps) * b2n (executes s t)) ts.
-Proof.
-  intro F. unfold totals. rewrite <- valid_ids. rewrite map_map. apply map_ext_in. intros t Ht.
-  induction reps as [|r reps IH]; [cbn; lia|]. cbn [forallb] in F. apply andb_true_iff in F. destruct F as [R F].
-  cbn [fold_right length]. rewrite (IH F). rewrite Nat2N.inj_succ.
-  pose proof (rep_ok_once r R t Ht) as B. rewrite count_body_occ, B. lia.
-Qed.
-
-Lemma start_order : exists reg1, (if s_rev s then reverse_tests (registry_of ts) else Some (registry_of ts)) = Some reg1
-  /\ Permutation reg1 ts /\ map t_id reg1 = expected_order.
-Proof.
-  rewrite registry_of_rev. unfold expected_order. destruct (s_rev s).
-  - unfold reverse_tests. rewrite pointer_array_id, reverse_ok. rewrite rev_involutive. exists ts. repeat split; [apply Permutation_refl | apply valid_ids].
-  - exists (rev ts). repeat split; [apply Permutation_sym, Permutation_rev | rewrite map_rev, valid_ids; reflexivity].
-Qed.
-
-Lemma run_opt_ok : exists reps, run_opt s = Some (mkObs reps (totals n reps)) /\ length reps = s_repeat s
-  /\ forallb (rep_ok s) reps = true.
-Proof.
-  unfold run_opt. fold ts. destruct start_order as [reg1 [E [P O]]]. rewrite E.
-  destruct (repeat_loop_ok (s_repeat s) reg1 P (fun _ => O)) as [reps [E' [L F]]]. rewrite E'.
-  exists reps. repeat split; assumption.
-Qed.
-
-Lemma run_meets_spec_s : spec s (run s) = true.
-Proof.
-  unfold run. destruct run_opt_ok as [reps [E [L F]]]. rewrite E. unfold spec. cbn [o_reps o_totals].
-  rewrite L, Nat.eqb_refl, F. cbn [andb]. rewrite (totals_ok reps F). rewrite L. apply nlist_eqb_refl.
-Qed.
 End Runner.
-
-Lemma run_meets_spec : forall s, valid s = true -> spec s (run s) = true.
-Proof. exact run_meets_spec_s. Qed.
 
 (* ================================================================== Part E: the statements exported by Properties_C02.v *)
 Local Open Scope N_scope.
@@ -657,19 +601,6 @@ Proof.
   pose proof (fold_counters gf nf ri l cnt0) as C. cbn zeta in C. destruct C as [C1 [C2 [C3 C4]]].
   cbn [cnt0 c_tests c_run c_ign c_filt] in *. rewrite C1, C2, C3, C4. rewrite !N.add_0_l. repeat split.
   apply count_partition. intros t _. unfold m_exec, m_cign. destruct (should_run gf nf t), (m_ign ri t); reflexivity.
-Qed.
-
-Lemma run_counts_identity s : valid s = true ->
-  length (o_reps (run s)) = s_repeat s /\
-  forall r, In r (o_reps (run s)) ->
-    c_tests (r_cnt r) = N.of_nat (length (s_tests s)) /\ c_tests (r_cnt r) = c_run (r_cnt r) + c_ign (r_cnt r) + c_filt (r_cnt r)
-    /\ Permutation (r_order r) (seq 0 (length (s_tests s))).
-Proof.
-  intro V. unfold run. destruct (run_opt_ok s V) as [reps [E [L F]]]. rewrite E. cbn [o_reps]. split; [exact L|].
-  intros r Hr. rewrite forallb_forall in F. specialize (F r Hr). unfold rep_ok in F.
-  do 3 (apply andb_true_iff in F; destruct F as [F _]). apply andb_true_iff in F. destruct F as [F Q2]. apply andb_true_iff in F. destruct F as [F Q1].
-  do 3 (apply andb_true_iff in F; destruct F as [F _]).
-  apply N.eqb_eq in Q1. apply N.eqb_eq in Q2. repeat split; try assumption. apply is_perm_ids_sound. exact F.
 Qed.
 
 (* exactly once: for any order in which every test occurs once *)
@@ -788,12 +719,12 @@ Proof. intro H. apply (word_shape_sound grp n). apply groups_balanced. exact H. 
 Definition ex_tests : list test :=
   [mkTest 0 [97;98] [97] false; mkTest 1 [97;98] [98] true; mkTest 2 [99] [97;98] false; mkTest 3 [99] [99] false; mkTest 4 [97;98] [97;97] false].
 Definition ex_scn : scenario :=
-  mkScn ex_tests [mkFilter [97] false false] [mkFilter [99] true true] false true true 7 [3; 0; 5; 1] 2%nat 1 false.
+  mkScn ex_tests [mkFilter [97] false false] [mkFilter [99] true true] false true true 7 [3; 0; 5; 1] 2%nat 1 false [].
 Example ex_valid : valid ex_scn = true.
 Proof. vm_compute. reflexivity. Qed.
-Example ex_orders : map r_order (o_reps (run ex_scn)) = [[4; 1; 2; 0; 3]; [3; 1; 2; 4; 0]]%nat.
+Example ex_orders : map (map r_order) (o_runs (run ex_scn)) = [[[4; 1; 2; 0; 3]; [3; 1; 2; 4; 0]]]%nat.
 Proof. vm_compute. reflexivity. Qed.
-Example ex_counters : map r_cnt (o_reps (run ex_scn)) = [mkCnt 5 2 1 2; mkCnt 5 2 1 2] /\ o_totals (run ex_scn) = [2; 0; 0; 0; 2].
+Example ex_counters : map (map r_cnt) (o_runs (run ex_scn)) = [[mkCnt 5 2 1 2; mkCnt 5 2 1 2]] /\ o_totals (run ex_scn) = [2; 0; 0; 0; 2].
 Proof. vm_compute. split; reflexivity. Qed.
 Example ex_spec : spec ex_scn (run ex_scn) = true.
 Proof. vm_compute. reflexivity. Qed.
